@@ -441,6 +441,14 @@ def _run_case(i, rng, rec, tier, state):
         cen, _ = gen.center_case(rng, max(ax))
         carg = np.array(cen) if rng.random() < 0.6 else tuple(cen)
         info = {"class": which, "axes": ax, "center": cen}
+        if rng.random() < 0.25:
+            # radii / semi-axes handed over as 0-d arrays (what indexing a parameter array with [()] or np.asarray(x) gives):
+            # they are the caller's arrays like any other - not to be kept, not to be written into by a later resize
+            axarg = [np.array(a, dtype=np.float64) for a in ax]
+            rec.cls("curved:axes-as-0d-arrays")
+            sizeprop = "area" if which in ("Circle", "Ellipse") else "volume"
+            expect_valid(rec, st, which + ":valid", lambda: getattr(cs, which)(*axarg, carg), info,
+                         after=lambda s: setattr(s, sizeprop, 1.7 * float(getattr(s, sizeprop))))
         expect_valid(rec, st, which + ":valid", lambda: getattr(cs, which)(*ax, carg), info,
                      after=lambda s: s.centroid.__setitem__(0, 99.0) if isinstance(s.centroid, np.ndarray) and s.centroid.flags.writeable else None)
         bad = list(ax)
